@@ -279,7 +279,7 @@ extern int mpt_data_convert_uint16(const uint16_t *from, MPT_TYPE(type) type, vo
 			if (val > UINT8_MAX) return MPT_ERROR(BadValue);
 			if (dest) *((uint8_t *) dest) = val;
 			return sizeof(uint8_t);
-		case 'h':
+		case 'n':
 			if (val > INT16_MAX) return MPT_ERROR(BadValue);
 			/* fall through */
 		case 'q':
